@@ -34,6 +34,7 @@ def check(model, R, tier):
     check_axis(model, R, 'C05', scope='forward')
     check_reject(model, R, ops)
     check_operators(model, R)
+    check_ctor_factory(model, R)
     from sa import rules_kernel as _K
     _K.check_numpy_contracts(model, R, 'C05')
     check_iter(model, R)
@@ -281,6 +282,54 @@ def _shape_normalised(model, f, cfg, ret):
             if not isinstance(got, (list, tuple)) or list(got) != want:
                 return False
     return True
+
+
+FACTORY = {'empty': 'numpy.empty', 'ones': 'numpy.ones', 'zeros': 'numpy.zeros', 'ones_like': 'numpy.ones_like', 'zeros_like': 'numpy.zeros_like', 'arange': 'numpy.arange',
+           'rand': 'numpy.random.rand', 'randn': 'numpy.random.randn', 'normal': 'numpy.random.normal', 'randint': 'numpy.random.randint', 'eye': 'numpy.eye', 'tensor': 'numpy.array'}
+
+
+def check_ctor_factory(model, R):
+    """every initializer is a thin wrapper of the NumPy factory of the same name: the data handed to Tensor(...) comes from exactly one call of that factory, which
+    receives the user's positional arguments (the values / counts / bounds are NumPy's, not a re-implementation)"""
+    R.rule('C05.CTOR-FACTORY', 'each initializer obtains its data from the NumPy factory of the same name, called once with the user\'s arguments in order '
+                               '(arange / eye / rand .. are not re-implemented: counts, end points and distributions are NumPy\'s)', floor=len(FACTORY))
+    from sa.peval import PE
+    from sa.poly import P
+    for n, want in FACTORY.items():
+        f = model.func('synapgrad.tensor.' + n)
+        va = f.node.args.vararg.arg if f.node.args.vararg else None
+        args = {p_: P.atom(p_) for p_ in f.pos_params}
+        if va:
+            args[va] = (P.atom('v0'), P.atom('v1'))
+        try:
+            outs = PE(model, atoms_not_none=True).paths(f, args, max_paths=16)
+        except Incomplete as u:
+            R.incomplete_at('C05.CTOR-FACTORY', f.qualname, str(u))
+            continue
+        bad = []
+        for o in outs:
+            if o.kind != 'return':
+                continue
+            np_calls = [c for c in o.calls if (c[0] or '').startswith('numpy.') and not (c[0] or '').endswith(('.astype', '.dtype')) and c[0] not in ('numpy.float32', 'numpy.int32', 'numpy.float64')]
+            hits = [c for c in np_calls if c[0] == want]
+            if len(hits) != 1:
+                bad.append('%d call(s) of %s (NumPy calls on the path: %s)' % (len(hits), want, sorted({c[0] for c in np_calls})))
+                continue
+            got = list(hits[0][1])
+            own = [p_ for p_ in f.pos_params if p_ not in ('dtype', 'requires_grad', 'name', 'device')]
+            user = [P.atom(p_) for p_ in own] + ([P.atom('v0'), P.atom('v1')] if va else [])
+            flat = []
+            for g in got:
+                flat.extend(list(g) if isinstance(g, (list, tuple)) else [g])
+            if n.endswith('_like'):
+                okargs = len(got) >= 1
+            elif n == 'tensor':
+                okargs = bool(got) and isinstance(got[0], P) and got[0] == P.atom(f.pos_params[0])
+            else:
+                okargs = [x for x in flat if isinstance(x, P)][:len(user)] == user
+            if not okargs:
+                bad.append('%s receives %s, expected the user arguments %s in order' % (want, [x.canon() if isinstance(x, P) else repr(x) for x in flat][:6], [u.canon() for u in user]))
+        R.ob('C05.CTOR-FACTORY', f.qualname, '%s -> %s' % (n, want), not bad and any(o.kind == 'return' for o in outs), 'the initializer must delegate to NumPy: %s' % bad[:2], f.loc)
 
 
 def check_ctor(model, R):
